@@ -208,6 +208,17 @@ func (w *W) exec(task int, op *scen.Op) {
 		return
 	case "nop":
 		return
+	case "share":
+		// build an object once, before the tasks start; tasks refer to it by Ref and only read the table
+		for i := range op.Args {
+			a := op.Args[i]
+			ref := a.Ref
+			a.Ref = 0
+			if ref > 0 {
+				w.shared[ref] = w.value(&a)
+			}
+		}
+		return
 	case "snap":
 		w.snapshot(task, w.curPh[task], w.curOp[task]-1)
 		return
